@@ -449,7 +449,12 @@ pub fn explore<const N: usize>(c: &Cfg, seeds: &[Vec<VOp>]) -> RunOut {
                         let mut cands = vec![];
                         let mut counters = BTreeMap::new();
                         let mut findings = vec![];
-                        for hist in &frontier_ref[ci * chunk..((ci + 1) * chunk).min(frontier_ref.len())] {
+                        for (hi, hist) in frontier_ref[ci * chunk..((ci + 1) * chunk).min(frontier_ref.len())].iter().enumerate() {
+                            // part of the states are expanded right after calls on unrelated objects that fail
+                            // half-way (or complete): what they leave behind in the thread must not matter
+                            if crate::dirty::maybe(ci * chunk + hi, 16) {
+                                *counters.entry("states_expanded_right_after_calls_on_unrelated_objects".into()).or_insert(0) += 1;
+                            }
                             if stop.load(std::sync::atomic::Ordering::Relaxed) || t0.elapsed() > c.wall {
                                 stop.store(true, std::sync::atomic::Ordering::Relaxed);
                                 break;
@@ -688,8 +693,9 @@ pub fn overflow_histories() -> Vec<(String, usize, usize, Vec<VOp>)> {
 }
 
 fn run_directed(c_out: &mut RunOut) {
-    for (what, n, cap, ops) in overflow_histories() {
+    for (hi, (what, n, cap, ops)) in overflow_histories().into_iter().enumerate() {
         let c = Cfg { n, cap, depth: 0, wall: Duration::from_secs(60), labels: vec![0] };
+        crate::dirty::maybe(hi, 4);
         // each op is judged on its own clean prefix: a dirty object is only watched by the sanitizer
         crate::inflight::begin_case(|| case_json(&c, &ops));
         journal(&c, &ops);
